@@ -87,7 +87,7 @@ class FlowGen:
         if r < 0.52 and self.profile[v] == 'obj':
             u = self.var()
             self.feat.add('copy')
-            return [ind + '%s = (%s,)' % (v, u)]
+            return [ind + '%s = [%s]' % (v, u)]
         self.feat.add('read')
         if rng.random() < 0.25:
             return [ind + 'log(%s)' % v]
@@ -247,6 +247,14 @@ class FlowGen:
         tail.append('    return %s' % self.rng.choice(self.vars))
         if self.nbits == 0:
             body = ['    if %s:' % self.bit(), '        %s = %s' % (self.vars[0], self.value(self.vars[0]))] + body
+        # a name that is never bound anywhere in the function would be a global, not a local
+        import re
+        text = '\n'.join(body + tail)
+        for v in self.vars:
+            bound = re.search(r'(^|\n)\s*(%s = |for %s in |case %s:|nonlocal %s)' % (v, v, v, v), text) or \
+                re.search(r' as %s:' % v, text)
+            if not bound:
+                body = body + ['    if %s:' % self.bit(), '        %s = %s' % (v, self.value(v))]
         return 'def %s(b):\n%s\n' % (self.name, '\n'.join(body + tail))
 
 
